@@ -42,7 +42,7 @@ def run_cfg(draw):
     cfg = {"space": sp, "lineup": draw(gen.lineup_spec(kinds=kinds, min_len=1, max_len=4, max_bs=3)),
            "model": draw(st.sampled_from(["gauss", "ar1", "poly", "tiny"])), "D": draw(st.integers(1, 2)), "N": draw(st.integers(4, 9)),
            "E": draw(st.integers(1, 3)), "seed": draw(st.integers(0, 2**32 - 2)),
-           "verbose": draw(st.booleans()), "n_jobs": 1}
+           "verbose": draw(st.booleans()), "n_jobs": draw(st.sampled_from([1, 1, 1, 1, 2])), "as_array": draw(st.booleans())}
     if scripted:
         cfg["script"] = draw(st.lists(weird, min_size=2, max_size=12))
         cfg["loss"] = {"kind": "scripted"}
